@@ -83,6 +83,12 @@ UNITS['tok'] = {
     ],
 }
 
+_KANI_CONV = [
+    {'package': 'vk-conv', 'harness': 'quoted_string_text', 'obligation': 'C11.kani.quoted_text', 'bounded': True, 'bound': 'all UTF-8 texts <= 4 bytes with matching quote / backtick delimiters (real parse_quoted_string)', 'tier': 'thorough', 'decode': 'raw', 'timeout': 300, 'fallback_for': ['lex']},
+    {'package': 'vk-conv', 'harness': 'prefixed_string_text', 'obligation': 'C11.kani.prefixed_text', 'bounded': True, 'bound': 'all UTF-8 texts <= 4 bytes starting with # / or quote (real parse_prefixed_string)', 'tier': 'thorough', 'decode': 'raw', 'timeout': 300, 'fallback_for': ['lex']},
+    {'package': 'vk-conv', 'harness': 'http_status_literal', 'obligation': 'C11.kani.http_status_literal', 'bounded': True, 'bound': 'the five texts [1-5]XX (real parse_http_status)', 'tier': 'thorough', 'decode': 'raw', 'timeout': 600, 'fallback_for': ['lex']},
+]
+
 _KANI_STATUS = {'package': 'vk-status', 'harness': 'status_try_from_total_and_domain', 'bounded': False,
                 'bound': 'loop-free, full u64 domain (complete)', 'tier': 'quick', 'decode': 'raw', 'timeout': 900}
 
@@ -207,7 +213,7 @@ PROPS = {
     },
     'C04': {
         'units': ['lex', 'c07', 'c16'],
-        'kani': [dict(_KANI_STATUS, obligation='C04.status.try_from.total')],
+        'kani': [dict(_KANI_STATUS, obligation='C04.status.try_from.total')] + [dict(h, obligation=h['obligation'].replace('C11.', 'C04.')) for h in _KANI_CONV],
         'level': 'other',
         'obligation_prefixes': ['C04.', 'C07.occurs.terminates', 'C07.occurs.nopanic', 'C07.uf.terminates', 'C07.uf.nopanic', 'C07.unify.nopanic', 'C07.unify.keeps_forest', 'C07.unify.occurs_before_bind',
                                 'C07.equation.', 'C07.inference_set.', 'C16.p2u.no_overflow', 'C16.u2p.no_overflow',
@@ -229,6 +235,7 @@ PROPS = {
     },
     'C11': {
         'units': ['lex', 'tok'],
+        'kani': _KANI_CONV,
         'level': 'other',
         'obligation_prefixes': ['C11.'],
         'technique': 'Verus contract on the real tokenize: tokens and error spans are exactly the lexer\'s ranges in order (tiling), each token carries the value its source slice denotes; ordering/tiling/in-text lemmas',
